@@ -8,7 +8,7 @@ From RPCX Require Wire.Bytes Wire.Header Wire.Codec Wire.CodecSpec.
 From RPCX Require Select.Simple Select.Jump Select.DoubleJump.
 From RPCX Require XClient.Breaker.
 From RPCX Require Client.ClientSM.
-From RPCX Require XClient.FailMode XClient.Multi.
+From RPCX Require XClient.FailMode XClient.Multi XClient.Discovery.
 Extraction Language OCaml.
 Extraction "model.ml"
   RoundRobin.rr_new RoundRobin.rr_run
@@ -24,4 +24,5 @@ Extraction "model.ml"
   Breaker.b_run Breaker.b_init Breaker.xb_run
   ClientSM.run ClientSM.init ClientSM.new_call
   FailMode.xcall
-  Multi.broadcast Multi.fork Multi.inform.
+  Multi.broadcast Multi.fork Multi.inform
+  Discovery.drun Discovery.drain Discovery.filter_servers.
